@@ -18,8 +18,13 @@ import (
 //     referenced under xpath "a" / "c"
 //   - typed externals show the externals of THIS transform
 //   - a record binds one namespace prefix: qa and qb are never both present
+// Variant of the custom function table a case was compiled with (0 or 1): normalize is bound to a
+// different function in each.
+var CheckVariant int
+
 func CheckOutputs(feats Features, ext map[string]string, t Transcript) []string {
 	var bad []string
+	dtfByFlag := map[string]interface{}{}
 	add := func(i int, f string, a ...interface{}) {
 		if len(bad) < 5 {
 			bad = append(bad, fmt.Sprintf("result %d: ", i)+fmt.Sprintf(f, a...))
@@ -36,6 +41,24 @@ func CheckOutputs(feats Features, ext map[string]string, t Transcript) []string 
 		same := func(x, y string) {
 			if feats.Has(x) && feats.Has(y) && !reflect.DeepEqual(m[x], m[y]) {
 				add(i, "%s = %v but %s = %v (same template, same anchor node)", x, m[x], y, m[y])
+			}
+		}
+		if feats.Has("dtf") && feats.Has("dtflag") {
+			if fl, ok := m["dtflag"].(string); ok && (fl == "true" || fl == "false") {
+				if prev, seen := dtfByFlag[fl]; seen && !reflect.DeepEqual(prev, m["dtf"]) {
+					add(i, "dtf = %v for flag %s, an earlier record with the same flag got %v", m["dtf"], fl, prev)
+				}
+				dtfByFlag[fl] = m["dtf"]
+				other := map[string]string{"true": "false", "false": "true"}[fl]
+				if o, seen := dtfByFlag[other]; seen && reflect.DeepEqual(o, m["dtf"]) {
+					add(i, "dtf = %v for layout_tz %s equals the value a record with layout_tz %s got (the flag decides how the offset is used)", m["dtf"], fl, other)
+				}
+			}
+		}
+		if feats.Has("nz") {
+			want := []string{"nA:", "nB:"}[CheckVariant]
+			if s, ok := m["nz"].(string); !ok || !strings.HasPrefix(s, want) {
+				add(i, "nz = %v, want the result of THIS schema's normalize (prefix %s)", m["nz"], want)
 			}
 		}
 		if feats.Has("probe") && !reflect.DeepEqual(m["probe"], float64(0)) {
